@@ -1,23 +1,27 @@
 """C13 - Tables behave like a list of rows; tree sequences never change (structural clauses)."""
 from __future__ import annotations
 
+from . import scopes
 from . import lib_schema, lib_module, lib_py
 
 LEVEL = "other"
 EXPLANATION = ("Column-schema completeness of every row/column operation family on the eight tables (obligations generated "
-               "from the structs in tables.h), argument/parameter name agreement, row forwarding; immutability clauses.")
+               "from the structs in tables.h), argument/parameter name agreement, row forwarding, loop-counter/column domains; "
+               "arrays handed out by a tree sequence are read-only views or copies; validate-before-store; C-contiguous row-index arrays.")
 
 
 def run(ctx):
     P = ctx.program()
-    lib_schema.all_families(ctx, P)
-    lib_schema.column_domain(ctx, P)
-    lib_module.array_flags(ctx, P)
-    lib_module.owned_arrays(ctx, P)
-    lib_module.format_types(ctx, P)
     py = ctx.python()
+    ps, ms = scopes.py_scope("C13"), scopes.module_scope("C13")
+    tbl = lambda f: "_table_" in f and not f.startswith("tsk_table_collection") and not f.startswith("tsk_table_sorter")
+    lib_schema.all_families(ctx, P, funcs=tbl)
+    lib_module.array_flags(ctx, P, only=ms)
+    lib_module.owned_arrays(ctx, P)
+    lib_module.format_types(ctx, P, only=ms)
+    lib_module.parsed_used(ctx, P, only=ms)
     lib_py.validate_before_store(ctx, py)
-    lib_py.table_name_agreement(ctx, py)
-    lib_py.setcols_complete(ctx, py)
+    lib_py.setcols_complete(ctx, py, only_tables=True)
     lib_py.facade_guard(ctx, py, "tables", "BaseTable.__getitem__", "index", "ll_table.get_row", upper="len(self)")
-    lib_py.ll_positional(ctx, py, P)
+    lib_py.ll_positional(ctx, py, P, only=ps)
+    lib_py.unused_params(ctx, py, mods=("tables",), only=ps)
